@@ -128,6 +128,6 @@ def to_grid(func):
             The function values evaluated on the grid with the same structure as the input grid_like object.
         """
 
-        return GridMaker(func=func, obj=obj, grid=grid, *args, **kwargs).result
+        return GridMaker(func, obj, grid, *args, **kwargs).result
 
     return wrapper
